@@ -49,7 +49,7 @@ def finalize(agg, tier):
         for n in ("history_steps", "history_inplace_steps", "history_pool_checks"):
             if not c.get("%s:%s" % (n, be)):
                 out.append("deciding counter %s:%s is zero" % (n, be))
-    for name in ("prime_verdicts", "composite_verdicts", "generated_primes", "modsqrt_roots", "modsqrt_nonresidues", "sieve_verdicts"):
+    for name in ("prime_verdicts", "composite_verdicts", "generated_primes", "modsqrt_roots", "modsqrt_nonresidues", "sieve_verdicts", "boundary_tape_primes"):
         if not c.get(name):
             out.append("deciding counter %s is zero" % name)
     return out
@@ -517,6 +517,28 @@ def generators(spec, ctx):
     ctx.count("backend:" + N._implementation.get("library", "native"))
     round_ = 0
     sizes = [160, 161, 255, 256, 257, 384, 512, 513, 768, 1024]
+    # boundary tapes: the first candidate sits at the very top / bottom of the range (all-one, all-zero, top bytes one)
+    import random as _rnd
+    for bits in (160, 163, 256, 257, 511, 512):
+        nb = (bits + 7) // 8
+        for tname, prefix in (("ones", b"\xff" * nb), ("ones-twice", b"\xff" * (2 * nb)), ("zeros", bytes(nb)),
+                              ("top-ones", b"\xff" * (nb - 1) + bytes([0xC1])), ("ones-then-fe", b"\xff" * (nb - 1) + b"\xfe")):
+            tape = entropy.Tape(prefix, rng=_rnd.Random(bits * 7 + len(prefix)))
+            for fname, call in (("generate_probable_prime", lambda: P.generate_probable_prime(exact_bits=bits, randfunc=tape)),
+                                ("getPrime", lambda: number.getPrime(bits, randfunc=tape))):
+                try:
+                    pv = int(call())
+                except Exception as e:      # noqa
+                    ctx.check(False, "gen:%s:exception-%s" % (fname, type(e).__name__), "prime generation raised on a boundary tape",
+                              {"bits": bits, "tape": tname, "exc": repr(e)})
+                    continue
+                ctx.case((fname, bits, "boundary-tape", tname))
+                ctx.count("boundary_tape_primes")
+                ctx.check(pv.bit_length() == bits, "gen:%s:wrong-size" % fname,
+                          "generated prime does not have exactly the requested bit size (boundary entropy tape)",
+                          {"bits": bits, "tape": tname, "p": hex(pv), "got_bits": pv.bit_length()})
+                ctx.check(primes.is_prime_bpsw(pv), "gen:%s:composite" % fname, "generated 'prime' is composite by the reference BPSW test",
+                          {"bits": bits, "tape": tname, "p": hex(pv)})
     while not ctx.expired():
         bits = sizes[round_ % len(sizes)]
         tape = entropy.Tape(rng=__import__("random").Random(rng.getrandbits(64)))
